@@ -40,6 +40,10 @@ structure Env where
   fixOk    : Nat → Nat → Bool   -- does fixRelativeAddr + the final size check succeed for (f, o)   (C03's subject)
   cbAddr   : Nat → BitVec 64    -- funcval address of user callback k
   stubAddr : Nat → BitVec 64    -- funcval address of the n-th reflect.MakeFunc stub
+  /-- is the function a generic instantiation?  Then goom patches the shape body behind it (patch.go:80 `GetInnerFunc`), whose ABI
+      has the hidden dictionary word, and the replacement is wrapped in an adapter (patch.go:91 `adaptToShapeFunc`) -/
+  generic  : Nat → Bool
+  adaptAddr : Nat → BitVec 64   -- funcval address of the n-th dictionary-dropping adapter (reflect.MakeFunc, heap)
 
 /-- `patch.Guard` (guard.go:13) -/
 structure Guard where
@@ -102,6 +106,12 @@ structure St where
   scanceled : Nat → Bool
   /-- a struct mocker the user keeps in a variable (`sm := b.Struct(x)`) -/
   shandle : Nat → Option Nat
+  /-- installed adapters of generic targets: adapter n forwards to `adapt n` (the user's callback or a MakeFunc stub) after
+      dropping the dictionary word; it is referenced by `p.replacement` of the registered patch, i.e. it lives as long as the patch is
+      registered.  (Go builds an adapter on every attempt; one whose `replaceFunc` fails is garbage at once and never observable,
+      so only installed ones are numbered.) -/
+  nAdapt : Nat
+  adapt : Nat → Option Imp
 
 def init (env : Env) : St where
   text := env.pristine
@@ -119,6 +129,8 @@ def init (env : Env) : St where
   nStructs := 0
   scanceled := fun _ => false
   shandle := fun _ => none
+  nAdapt := 0
+  adapt := fun _ => none
 
 /-! ## internal/patch -/
 
@@ -195,15 +207,22 @@ def impAddr (env : Env) : Imp → BitVec 64
   | .cb k => env.cbAddr k
   | .stub n => env.stubAddr n
 
+/-- where the entry jump of mocker `id` leads for implementation `imp`: the implementation's own funcval, or — for a generic
+    target — a fresh adapter (patch.go:91 `adaptToShapeFunc`: `p.replacement = adapter`) -/
+def dest (env : Env) (s : St) (id : Nat) (imp : Imp) : BitVec 64 :=
+  if env.generic (s.mockers id).target = true then env.adaptAddr s.nAdapt else impAddr env imp
+
 /-- mocker.go:76/88/101 `applyBy*`: proxy → `patch.Trampoline` → on error panic (mocker untouched), else
     `m.guard = guard; m.guard.Apply(); m.imp = callback; m.canceled = false` -/
 def applyImp (env : Env) (s : St) (id : Nat) (imp : Imp) : St × Option Err :=
   let m := s.mockers id
-  match replaceFunc env s m.target (impAddr env imp) m.origin with
+  match replaceFunc env s m.target (dest env s id imp) m.origin with
   | (s1, .error e) => (s1, some e)
   | (s1, .ok g) =>
     let s2 := guardApply s1 g
-    ({ s2 with mockers := upd s2.mockers id { (s2.mockers id) with guard := some g, imp := some imp, canceled := false } }, none)
+    ({ s2 with mockers := upd s2.mockers id { (s2.mockers id) with guard := some g, imp := some imp, canceled := false },
+               nAdapt := if env.generic m.target = true then s.nAdapt + 1 else s.nAdapt,
+               adapt := if env.generic m.target = true then upd s.adapt s.nAdapt (some imp) else s.adapt }, none)
 
 /-- `m.guard.Cancel()` if `m.guard != nil` (mocker.go:157 → guard.go:46 UnpatchWithLock) -/
 def cancelGuard (s : St) : Option Nat → St
@@ -365,6 +384,15 @@ inductive Beh where
   | orig | cb (k : Nat) | stub (n : Nat) | unknown
   deriving DecidableEq, Repr
 
+/-- what an entry jump to an installed adapter does: the adapter drops the dictionary word and calls what it wraps -/
+def adaptClass (env : Env) (s : St) (cur : Bytes) : Beh :=
+  match (List.range s.nAdapt).find? (fun n => cur = jumpTo (env.adaptAddr n)) with
+  | some n => match s.adapt n with
+    | some (.cb k) => .cb k
+    | some (.stub m) => .stub m
+    | none => .unknown
+  | none => .unknown
+
 /-- behaviour class of a call to `f`: decided by the entry bytes (the CPU executes them) -/
 def behaviour (env : Env) (s : St) (nCb : Nat) (f : Nat) : Beh :=
   let cur := (s.text f).take 13
@@ -373,6 +401,6 @@ def behaviour (env : Env) (s : St) (nCb : Nat) (f : Nat) : Beh :=
     | some k => .cb k
     | none => match (List.range s.nStubs).find? (fun n => cur = jumpTo (env.stubAddr n)) with
       | some n => .stub n
-      | none => .unknown
+      | none => adaptClass env s cur
 
 end Patch
